@@ -21,8 +21,8 @@ try:
     dd = os.path.join(wt, '.demo'); os.makedirs(dd, exist_ok=True)
     for fn in os.listdir(inc):
         if fn.endswith('.py'):
-            src2 = re.sub(r'/tmp/wt\d?_C\d+', wt, open(os.path.join(inc, fn)).read())
-            src2 = re.sub(r'/tmp/c\d+_demo\d?', dd, src2)
+            src2 = re.sub(r'/tmp/wt\d*_C\d+', wt, open(os.path.join(inc, fn)).read())
+            src2 = re.sub(r'/tmp/c\d+_demo\d*', dd, src2)
             open(os.path.join(dd, fn), 'w').write(src2)
     d2 = os.path.join(dd, 'demo_%s.py' % tag)
     r = sh('/venv/bin/python %s' % d2, env=env, cwd=wt, timeout=900); res['demo_clean_rc'] = r.returncode
